@@ -199,12 +199,50 @@ func dropRelation(c *gen.Scenario, ti, ri int) bool {
 			}
 		}
 	}
-	for _, rq := range c.Requests {
-		if rm.ObjType(rq.Obj) == t.Name && rq.Rel == name {
-			return false
+	var uses func(rq gen.Request) bool
+	uses = func(rq gen.Request) bool {
+		if (rm.ObjType(rq.Obj) == t.Name || rq.Type == t.Name) && rq.Rel == name {
+			return true
 		}
 		if _, _, ur := rm.SplitUser(rq.User); ur == name {
+			return true
+		}
+		if _, _, fr := rm.SplitUser(rq.Filter); fr == name {
+			return true
+		}
+		for _, ct := range rq.CtxTuples {
+			if rm.ObjType(ct.Obj) == t.Name && ct.Rel == name {
+				return true
+			}
+			if ut, _, ur := rm.SplitUser(ct.User); ut == t.Name && ur == name {
+				return true
+			}
+		}
+		for _, it := range rq.Items {
+			if uses(it) {
+				return true
+			}
+		}
+		return false
+	}
+	for _, rq := range c.Requests {
+		if uses(rq) {
 			return false
+		}
+	}
+	for _, op := range c.Ops {
+		if op.Req != nil && uses(*op.Req) {
+			return false
+		}
+		for _, ts := range [][]rm.Tuple{op.Writes, op.Deletes} {
+			for _, ct := range ts {
+				if rm.ObjType(ct.Obj) == t.Name && ct.Rel == name {
+					return false
+				}
+				if ut, _, ur := rm.SplitUser(ct.User); ut == t.Name && ur == name {
+					return false
+				}
+			}
 		}
 	}
 	t.Relations = append(t.Relations[:ri:ri], t.Relations[ri+1:]...)
